@@ -154,4 +154,357 @@ theorem shape_facts {g : List Ev} (h : Shape g) :
     | (refine ⟨fun j' => ?_, fun j' => ?_⟩ <;> by_cases hj : j = j' <;> simp [hj])
     | (intro j'; by_cases hj : j = j' <;> simp [hj])
 
+/-! ## what one step does -/
+
+/-- the goroutine that moves: event, the main program and the pool afterwards -/
+inductive Fire (s : State) : Ev → List MEv → List (List Ev) → Prop
+  | main (e : Ev) (m : List MEv) : s.main = .ev e :: m → Fire s e m s.gs
+  | gor (k : Nat) (e : Ev) (g : List Ev) : s.gs[k]? = some (e :: g) → Fire s e s.main (s.gs.set k g)
+
+theorem execEv_frame {cap : Ch → Nat} {s s1 : State} {e : Ev} (h : execEv cap s e = some s1) :
+    s1.main = s.main ∧ s1.gs = s.gs := by
+  cases e <;> simp only [execEv] at h <;> (repeat' split at h) <;> simp at h <;> subst h <;> simp
+
+theorem step_cases {cap : Ch → Nat} {s s' : State} {i : Nat} (h : step cap s i = some s') :
+    s.panic = false ∧
+    ((∃ p m, s.main = .go p :: m ∧ s' = { s with main := m, gs := s.gs ++ [p] }) ∨
+     (∃ e M G s1, Fire s e M G ∧ execEv cap s e = some s1 ∧ s' = { s1 with main := M, gs := G })) := by
+  unfold step at h
+  split at h
+  · simp at h
+  · rename_i hp
+    refine ⟨by simpa using hp, ?_⟩
+    split at h
+    · split at h
+      · simp at h
+      · rename_i p m hm
+        left; exact ⟨p, m, hm, by simpa using h.symm⟩
+      · rename_i e m hm
+        right
+        simp only [Option.map_eq_some_iff] at h
+        obtain ⟨s1, h1, h2⟩ := h
+        exact ⟨e, m, s.gs, s1, Fire.main e m hm, h1, by rw [← h2, (execEv_frame h1).2]⟩
+    · rename_i k
+      split at h
+      · rename_i e g hk
+        right
+        simp only [Option.map_eq_some_iff] at h
+        obtain ⟨s1, h1, h2⟩ := h
+        refine ⟨e, s.main, s.gs.set k g, s1, Fire.gor k e g hk, h1, ?_⟩
+        rw [← h2, (execEv_frame h1).2]
+        have := (execEv_frame h1).1
+        cases s1; simp at this ⊢; exact this
+      · simp at h
+
+theorem count_cons_ev (x e : Ev) (l : List Ev) : (e :: l).count x = l.count x + (if x = e then 1 else 0) := by
+  rw [List.count_cons]
+  by_cases h : x = e
+  · subst h; simp
+  · have : ¬ e = x := fun h' => h h'.symm
+    simp [h, this]
+
+theorem fire_cnt {s : State} {e : Ev} {M : List MEv} {G : List (List Ev)} (h : Fire s e M G) (x : Ev) :
+    (mflat M).count x + gsum (List.count x) G + (if x = e then 1 else 0) = cnt x s := by
+  cases h with
+  | main e m hm => simp only [cnt, hm, mflat, count_cons_ev]; omega
+  | gor k e g hk =>
+    have := gsum_set (List.count x) s.gs k g (e :: g) hk
+    rw [count_cons_ev] at this
+    simp only [cnt]; omega
+
+/-! ## the invariant -/
+
+def rank : MEv → Nat
+  | .ev (.recv _) => 1
+  | .ev (.close _) => 2
+  | _ => 0
+
+/-- the events of the main goroutine in normal form -/
+def MOk (x : MEv) : Prop :=
+  x = .ev (.send .sem) ∨ (∃ j, x = .go (W (.chunk j))) ∨ (∃ j, x = .go (W (.split j))) ∨ (∃ j, x = .go (Cj j)) ∨
+  (∃ j, x = .ev (.recv (.chunk j))) ∨ x = .ev (.close .sem)
+
+theorem MOk.shape {p : List Ev} (h : MOk (.go p)) : Shape p := by
+  unfold MOk at h; unfold Shape
+  rcases h with h | ⟨j, h⟩ | ⟨j, h⟩ | ⟨j, h⟩ | ⟨j, h⟩ | h <;> simp at h
+  · right; left; exact ⟨j, Or.inl h⟩
+  · right; right; left; exact ⟨j, Or.inl h⟩
+  · right; right; right; exact ⟨j, Or.inl h⟩
+
+/-- counting facts about the future of the main goroutine -/
+theorem mflat_facts {M : List MEv} (h : ∀ x ∈ M, MOk x) :
+    (∀ j, (mflat M).count (.recv (.split j)) ≤ 2 * (mflat M).count (.close (.split j))) ∧
+    ((mflat M).count (.recv .sem) ≤ (mflat M).count (.send .sem)) := by
+  induction M with
+  | nil => simp [mflat]
+  | cons x M ih =>
+    have ih := ih (fun y hy => h y (by simp [hy]))
+    have hx := h x (by simp)
+    unfold MOk at hx
+    rcases hx with hx | ⟨j, hx⟩ | ⟨j, hx⟩ | ⟨j, hx⟩ | ⟨j, hx⟩ | hx <;> subst hx <;>
+      simp only [mflat, W, Cj, List.count_append, count_cons_ev, List.count_nil] <;>
+      (constructor
+       · intro j'
+         have h1 := ih.1 j'
+         first | (simp <;> omega) | (by_cases hj : j' = j <;> simp [hj] <;> omega)
+       · have h2 := ih.2
+         simp <;> omega)
+
+/-- when the main goroutine has only receives / the close left, its future has no send and no `<-sem`, `<-chSplit` -/
+theorem mflat_phase {M : List MEv} (h : ∀ x ∈ M, MOk x) (hr : ∀ x ∈ M, 1 ≤ rank x) :
+    (∀ c, (mflat M).count (.send c) = 0) ∧ (mflat M).count (.recv .sem) = 0 ∧ (∀ j, (mflat M).count (.recv (.split j)) = 0) := by
+  induction M with
+  | nil => simp [mflat]
+  | cons x M ih =>
+    have ih := ih (fun y hy => h y (by simp [hy])) (fun y hy => hr y (by simp [hy]))
+    have hx := h x (by simp)
+    have hrx := hr x (by simp)
+    unfold MOk at hx
+    rcases hx with hx | ⟨j, hx⟩ | ⟨j, hx⟩ | ⟨j, hx⟩ | ⟨j, hx⟩ | hx <;> subst hx <;> simp [rank] at hrx <;>
+      simp only [mflat, count_cons_ev] <;> simp [ih]
+
+structure Inv (T : Nat) (s : State) : Prop where
+  np : s.panic = false
+  bal : ∀ c, s.buf c + cnt (.send c) s = (if c = .sem then T else 0) + cnt (.recv c) s
+  shape : ∀ g ∈ s.gs, Shape g
+  mok : ∀ x ∈ s.main, MOk x
+  sorted : s.main.Pairwise (fun a b => rank a ≤ rank b)
+  mlast : s.main = [] ∨ s.main.getLast? = some (.ev (.close .sem))
+  clS : ∀ c, s.closed c = true → cnt (.send c) s = 0
+  clC : ∀ c, s.closed c = true → cnt (.close c) s = 0
+  c1 : ∀ c, cnt (.close c) s ≤ 1
+  rc : ∀ j, cnt (.recv (.chunk j)) s ≤ 1 ∧ cnt (.recv (.split j)) s ≤ 2
+
+theorem getLast?_tail {α : Type} {x : α} {m : List α} {y : α} (h : (x :: m).getLast? = some y) :
+    m = [] ∨ m.getLast? = some y := by
+  cases m with
+  | nil => left; rfl
+  | cons b l => right; simpa [List.getLast?_cons_cons] using h
+
+/-- a `go` step of the main goroutine -/
+theorem inv_go {T : Nat} {s : State} {p : List Ev} {m : List MEv} (h : Inv T s) (hm : s.main = .go p :: m) :
+    Inv T { s with main := m, gs := s.gs ++ [p] } := by
+  have hc : ∀ x, cnt x { s with main := m, gs := s.gs ++ [p] } = cnt x s := by
+    intro x; simp only [cnt, hm, mflat, List.count_append, gsum_append_single]; omega
+  have hmok : ∀ x ∈ m, MOk x := fun x hx => h.mok x (by simp [hm, hx])
+  refine ⟨h.np, ?_, ?_, hmok, ?_, ?_, ?_, ?_, ?_, ?_⟩
+  · intro c; rw [hc, hc]; exact h.bal c
+  · intro g hg
+    simp at hg
+    rcases hg with hg | hg
+    · exact h.shape g hg
+    · subst hg; exact (h.mok _ (by simp [hm])).shape
+  · have := h.sorted; rw [hm] at this; exact (List.pairwise_cons.mp this).2
+  · rcases h.mlast with h0 | h0
+    · simp [hm] at h0
+    · rw [hm] at h0; exact getLast?_tail h0
+  · intro c hcl; rw [hc]; exact h.clS c hcl
+  · intro c hcl; rw [hc]; exact h.clC c hcl
+  · intro c; rw [hc]; exact h.c1 c
+  · intro j; rw [hc, hc]; exact h.rc j
+
+/-- frame facts of an event step -/
+theorem fire_frame {T : Nat} {s : State} {e : Ev} {M : List MEv} {G : List (List Ev)} (h : Inv T s) (hf : Fire s e M G) :
+    (∀ g ∈ G, Shape g) ∧ (∀ x ∈ M, MOk x) ∧ M.Pairwise (fun a b => rank a ≤ rank b) ∧
+    (M = [] ∨ M.getLast? = some (.ev (.close .sem))) := by
+  cases hf with
+  | main e m hm =>
+    refine ⟨h.shape, fun x hx => h.mok x (by simp [hm, hx]), ?_, ?_⟩
+    · have := h.sorted; rw [hm] at this; exact (List.pairwise_cons.mp this).2
+    · rcases h.mlast with h0 | h0
+      · simp [hm] at h0
+      · rw [hm] at h0; exact getLast?_tail h0
+  | gor k e g hk =>
+    refine ⟨?_, h.mok, h.sorted, h.mlast⟩
+    intro g' hg'
+    rcases List.mem_or_eq_of_mem_set hg' with h1 | h1
+    · exact h.shape g' h1
+    · subst h1; exact (h.shape _ (List.mem_of_getElem? hk)).tail
+
+def cnt2 (x : Ev) (M : List MEv) (G : List (List Ev)) : Nat := (mflat M).count x + gsum (List.count x) G
+theorem cnt_eq (x : Ev) (s : State) : cnt x s = cnt2 x s.main s.gs := rfl
+
+theorem fire_self {s : State} {e : Ev} {M : List MEv} {G : List (List Ev)} (h : Fire s e M G) :
+    cnt2 e M G + 1 = cnt e s := by
+  have := fire_cnt h e; simp at this; exact this
+theorem fire_other {s : State} {e : Ev} {M : List MEv} {G : List (List Ev)} (h : Fire s e M G) (x : Ev) (hx : x ≠ e) :
+    cnt2 x M G = cnt x s := by
+  have := fire_cnt h x; simp [hx] at this; exact this
+theorem fire_le {s : State} {e : Ev} {M : List MEv} {G : List (List Ev)} (h : Fire s e M G) (x : Ev) :
+    cnt2 x M G ≤ cnt x s := by
+  have := fire_cnt h x; unfold cnt2; omega
+
+theorem close_cases {T : Nat} {s : State} {c : Ch} {M : List MEv} {G : List (List Ev)} (h : Inv T s)
+    (hf : Fire s (.close c) M G) : (c = .sem ∧ s.main = .ev (.close .sem) :: M ∧ G = s.gs) ∨ ∃ j, c = .split j := by
+  cases hf with
+  | main e m hm =>
+    have := h.mok (.ev (.close c)) (by simp [hm])
+    unfold MOk at this
+    simp at this
+    subst this
+    left; exact ⟨rfl, hm, rfl⟩
+  | gor k e g hk =>
+    have := h.shape _ (List.mem_of_getElem? hk)
+    unfold Shape at this
+    rcases this with h0 | ⟨j, h0 | h0 | h0⟩ | ⟨j, h0 | h0 | h0⟩ | ⟨j, h0 | h0 | h0⟩ <;> simp [W, Cj] at h0
+    right; exact ⟨j, h0.1⟩
+
+/-- the total of an event over the pool, bounded pointwise -/
+theorem cnt2_split_bound {M : List MEv} {G : List (List Ev)} (hM : ∀ x ∈ M, MOk x) (hG : ∀ g ∈ G, Shape g) (j : Nat) :
+    cnt2 (.recv (.split j)) M G ≤ 2 * cnt2 (.close (.split j)) M G := by
+  have h1 := (mflat_facts hM).1 j
+  have h2 := gsum_le (List.count (.recv (.split j))) (fun g => 2 * List.count (.close (.split j)) g) G
+    (fun g hg => (shape_facts (hG g hg)).2.1 j)
+  have h3 : gsum (fun g => 2 * List.count (Ev.close (Ch.split j)) g) G = 2 * gsum (List.count (Ev.close (Ch.split j))) G := by
+    clear h2 hG
+    induction G with
+    | nil => simp
+    | cons a G ih => simp [ih]; omega
+  unfold cnt2; omega
+
+/-- when `close(sem)` runs, no goroutine has a release left: every pending release is followed by a result send, and all result
+sends have been received -/
+theorem no_release_left {T : Nat} {s : State} (h : Inv T s) (hm : s.main = [.ev (.close .sem)]) :
+    gsum (List.count (.send .sem)) s.gs = 0 := by
+  have hchunk : ∀ j, cnt (.send (.chunk j)) s = 0 := by
+    intro j
+    have hb := h.bal (.chunk j)
+    have hr : cnt (.recv (.chunk j)) s = 0 := by
+      simp only [cnt, hm, mflat]
+      rw [gsum_zero _ _ (fun g hg => (shape_facts (h.shape g hg)).1 j)]
+      simp
+    simp at hb; omega
+  rcases Nat.eq_zero_or_pos (gsum (List.count (.send .sem)) s.gs) with h0 | hpos
+  · exact h0
+  exfalso
+  obtain ⟨g, hg, h1⟩ := exists_of_gsum_pos _ _ hpos
+  obtain ⟨j, hj | hj⟩ := (shape_facts (h.shape g hg)).2.2.2.2.1 h1
+  · have := hchunk j
+    have h2 := gsum_mem_le (List.count (.send (.chunk j))) s.gs g hg
+    simp only [cnt] at this; omega
+  · have hb := h.bal (.split j)
+    have h2 := gsum_mem_le (List.count (.send (.split j))) s.gs g hg
+    have hr : 1 ≤ gsum (List.count (.recv (.split j))) s.gs := by
+      simp only [cnt, hm, mflat] at hb
+      simp at hb; omega
+    obtain ⟨g', hg', h3⟩ := exists_of_gsum_pos _ _ hr
+    have h4 := (shape_facts (h.shape g' hg')).2.2.1 j h3
+    have h5 := gsum_mem_le (List.count (.send (.chunk j))) s.gs g' hg'
+    have := hchunk j
+    simp only [cnt] at this; omega
+
+theorem mflat_count_mem {e : Ev} {M : List MEv} (hmem : MEv.ev e ∈ M) : 1 ≤ (mflat M).count e := by
+  induction M with
+  | nil => simp at hmem
+  | cons x M ih =>
+    simp at hmem
+    rcases hmem with rfl | hmem
+    · simp [mflat]
+    · have := ih hmem
+      cases x <;> simp only [mflat, List.count_append, count_cons_ev] <;> omega
+
+/-- an event step preserves the invariant (in particular it does not reach the panic state) -/
+theorem inv_ev {T : Nat} {cap : Ch → Nat} {s s1 : State} {e : Ev} {M : List MEv} {G : List (List Ev)}
+    (h : Inv T s) (hf : Fire s e M G) (hx : execEv cap s e = some s1) : Inv T { s1 with main := M, gs := G } := by
+  obtain ⟨hS, hM, hP, hL⟩ := fire_frame h hf
+  have hself := fire_self hf
+  have hoth := fire_other hf
+  have hle := fire_le hf
+  have hclS : ∀ d, s.closed d = true → cnt2 (.send d) M G = 0 := fun d hcl => by
+    have := h.clS d hcl; have := hle (.send d); omega
+  have hclC : ∀ d, s.closed d = true → cnt2 (.close d) M G = 0 := fun d hcl => by
+    have := h.clC d hcl; have := hle (.close d); omega
+  have hc1 : ∀ d, cnt2 (.close d) M G ≤ 1 := fun d => by
+    have := h.c1 d; have := hle (.close d); omega
+  have hrc : ∀ j, cnt2 (.recv (.chunk j)) M G ≤ 1 ∧ cnt2 (.recv (.split j)) M G ≤ 2 := fun j => by
+    have := h.rc j; have := hle (.recv (.chunk j)); have := hle (.recv (.split j)); omega
+  cases e with
+  | recv c =>
+    simp only [execEv] at hx
+    have hbal := h.bal c
+    split at hx
+    · rename_i hb
+      simp at hx; subst hx
+      refine ⟨h.np, ?_, hS, hM, hP, hL, hclS, hclC, hc1, hrc⟩
+      intro d
+      simp only [cnt_eq]
+      have hb' := h.bal d
+      rw [hoth (.send d) (by simp)]
+      by_cases hd : d = c
+      · subst hd; simp only [if_true]
+        generalize (if d = Ch.sem then T else 0) = E at *
+        omega
+      · rw [hoth (.recv d) (by simp [hd])]; simp only [hd, if_false]; exact hb'
+    · split at hx
+      · rename_i hb hcl
+        exfalso
+        have := h.clS c hcl
+        generalize (if c = Ch.sem then T else 0) = E at *
+        omega
+      · simp at hx
+  | send c =>
+    simp only [execEv] at hx
+    split at hx
+    · rename_i hcl
+      exfalso
+      have := h.clS c hcl
+      omega
+    · split at hx
+      · simp at hx; subst hx
+        refine ⟨h.np, ?_, hS, hM, hP, hL, hclS, hclC, hc1, hrc⟩
+        intro d
+        simp only [cnt_eq]
+        have hb' := h.bal d
+        rw [hoth (.recv d) (by simp)]
+        by_cases hd : d = c
+        · subst hd; simp only [if_true]
+          generalize (if d = Ch.sem then T else 0) = E at *
+          omega
+        · rw [hoth (.send d) (by simp [hd])]; simp only [hd, if_false]; exact hb'
+      · simp at hx
+  | close c =>
+    simp only [execEv] at hx
+    split at hx
+    · rename_i hcl
+      exfalso
+      have := h.clC c hcl
+      omega
+    · rename_i hncl
+      simp at hx; subst hx
+      have hbal' : ∀ d, s.buf d + cnt2 (.send d) M G = (if d = .sem then T else 0) + cnt2 (.recv d) M G := by
+        intro d
+        rw [hoth (.send d) (by simp), hoth (.recv d) (by simp)]; exact h.bal d
+      have hc0 : cnt2 (.close c) M G = 0 := by have := h.c1 c; omega
+      refine ⟨h.np, hbal', hS, hM, hP, hL, ?_, ?_, hc1, hrc⟩
+      · intro d hd
+        simp only [cnt_eq]
+        by_cases hdc : d = c
+        · subst hdc
+          rcases close_cases h hf with ⟨hsem, hmain, hG⟩ | ⟨j, hj⟩
+          · -- close(sem) by the main goroutine: it is its last event
+            subst hsem; subst hG
+            have hMnil : M = [] := by
+              rcases hL with h0 | h0
+              · exact h0
+              · exfalso
+                have hmem : MEv.ev (.close .sem) ∈ M := List.mem_of_getLast? h0
+                have := mflat_count_mem hmem
+                unfold cnt2 at hc0; omega
+            subst hMnil
+            have := no_release_left h hmain
+            simp [cnt2, mflat, this]
+          · subst hj
+            have h1 := cnt2_split_bound hM hS j
+            have h2 := hbal' (.split j)
+            simp at h2
+            omega
+        · simp [hdc] at hd
+          exact hclS d hd
+      · intro d hd
+        simp only [cnt_eq]
+        by_cases hdc : d = c
+        · subst hdc; exact hc0
+        · simp [hdc] at hd
+          exact hclC d hd
+
 end GV.MSMProto
